@@ -11,6 +11,7 @@ INVARIANT AdjustLaw
 INVARIANT AddLaw
 INVARIANT DrangeLaw
 INVARIANT MechanismIsLaw
+INVARIANT BeyondIsLawOrRefusal
 INVARIANT PathsAgree
 INVARIANT TableLaw
 INVARIANT Straddles
